@@ -1905,6 +1905,25 @@ Proof.
   - cbv zeta. eapply sec_parse_ok_hmac. exact Esec.
 Qed.
 
+(* ------------------------------------------------------------------ the counter of every single block *)
+Lemma counter_per_block_lemma (ek : list N -> list N) (ek_len : forall b, length (ek b) = 16%nat) mac nonce ctr s b :
+  forallb wf_cmd (s_cmds s) = true -> sec_export ek mac nonce ctr s = Ok b ->
+  exists hplain cd gs,
+    cmds_export (s_cmds s) = Ok cd /\ length hplain = 16%nat /\
+    b = xblock ek nonce ctr hplain ++ hmac256 mac (xblock ek nonce ctr hplain) ++ concat (map (hmac256 mac) gs) ++ concat gs /\
+    length (concat gs) = length cd /\
+    forall j, (j < length cd / 16)%nat ->
+      nth j (chunks 16 (concat gs)) [] = xblock ek nonce (ctr + N.of_nat (3 + 2 * length gs + j)) (nth j (chunks 16 cd) []).
+Proof.
+  intros W H. destruct (sec_export_shape ek ek_len mac nonce ctr s b W H) as (hp & cd & gs & Hcd & Lhp & _ & _ & Hgs & Hb).
+  destruct (cmds_stream _ W) as (cd' & os & Hcd' & Hcdm & _). rewrite Hcd in Hcd'. injection Hcd' as <-.
+  exists hp, cd, gs. split; [exact Hcd|]. split; [exact Lhp|]. split; [exact Hb|]. split.
+  - rewrite Hgs. now apply (body_length ek ek_len).
+  - intros j Hj. rewrite Hgs. rewrite chunks_blocks by (apply (xblocks_blocks16 ek ek_len), chunks_blocks16, Hcdm).
+    rewrite (xblocks_nth ek ek_len nonce) by (rewrite chunks_count by assumption; exact Hj).
+    f_equal. lia.
+Qed.
+
 (* ------------------------------------------------------------------ concrete instances (non-vacuity, refutations) *)
 Definition demo_secs : list section :=
   [mkSec 5 2 [CErase 0 256 0 0; CLoad 4096 0 [97; 98; 99] (zeros 13)];
@@ -2123,4 +2142,18 @@ Lemma parse21_accepts_only_verified_thm :
    eqb_list (slice data (i + 16) (i + 48)) (hmac256 (p_mac p) (slice data i (i + 16))) = true).
 Proof.
   exact parse21_accept_lemma.
+Qed.
+
+Lemma counter_per_block_thm :
+  forall (ek : list N -> list N), (forall b, length (ek b) = 16%nat) ->
+  forall mac nonce ctr s b,
+  forallb wf_cmd (s_cmds s) = true -> sec_export ek mac nonce ctr s = Ok b ->
+  exists hplain cd gs,
+    cmds_export (s_cmds s) = Ok cd /\ length hplain = 16%nat /\
+    b = xblock ek nonce ctr hplain ++ hmac256 mac (xblock ek nonce ctr hplain) ++ concat (map (hmac256 mac) gs) ++ concat gs /\
+    length (concat gs) = length cd /\
+    forall j, (j < length cd / 16)%nat ->
+      nth j (chunks 16 (concat gs)) [] = xblock ek nonce (ctr + N.of_nat (3 + 2 * length gs + j)) (nth j (chunks 16 cd) []).
+Proof.
+  exact counter_per_block_lemma.
 Qed.
